@@ -16,9 +16,9 @@ FUNCTIONS = ["AsyncPeekableQueue.head/pop/mark/is_marked", "GeckoUdpProtocolHand
              "GeckoAsyncSpa._connect (consumer registration)", "GeckoAsyncSpa._async_on_packet/_async_on_rferr/_async_on_wcerr/"
              "_async_on_partial_status_update", "GeckoPacketProtocolHandler.can_handle/handle",
              "GeckoAsyncPartialStatusBlockProtocolHandler.can_handle/async_handle", "GeckoRFErrProtocolHandler", "GeckoWatercareErrorHandler"]
-BOUNDS = {"head datagram": "symbolic bytes, length in {0, 5, 6, 9, 24} ({0, 5, 6, 10} for the partial-update consumer); framed packets: identifiers 3 symbolic bytes, payload 6 symbolic bytes",
+BOUNDS = {"head datagram": "symbolic bytes, length in {0, 5, 6, 9, 24} (thorough: 12 lengths 0..24) ({0, 5, 6, 10} for the partial-update consumer); framed packets: identifiers 3 symbolic bytes, payload 6 symbolic bytes",
           "queue": "0..2 further datagrams behind the head; mark flag both ways",
-          "run": "6 segments of the unhandled consumer against an arbitrary environment action at every await"}
+          "run": "6 (thorough 9) segments of the unhandled consumer against an arbitrary environment action at every await"}
 ASSUMPTIONS = [
     "asyncio interleaves tasks only at suspending awaits, so one Handle._run() is atomic; the step from the segment results "
     "to the whole-system statement is this atomicity argument",
@@ -333,7 +333,7 @@ def head_age(sx):
                 cur[0], cur[1] = h, loop.time()
             return (loop.time() - cur[1]) if h is not None else 0.0
         measure()
-        for step in range(6):
+        for step in range(RUN_STEPS[0]):
             # the environment acts while the consumer is suspended, then the consumer runs one segment
             a = sx.choice(f"env{step}", 3)
             if a == 1:
@@ -356,6 +356,9 @@ CONSUMERS = ["GeckoUnhandledProtocolHandler", "GeckoPacketProtocolHandler", "Gec
              "GeckoRFErrProtocolHandler", "GeckoWatercareErrorHandler"]
 
 
+RUN_STEPS = [6]
+
+
 def registration(sx):
     loop, spa, proto, consumers, events = connect_world(sx)
     sx.check(sorted(consumers) == sorted(CONSUMERS), "seg.connect-registers-the-expected-consumers", lambda: str(sorted(consumers)))
@@ -363,6 +366,8 @@ def registration(sx):
 
 
 def units(tier):
+    global HEAD_LENS
+    HEAD_LENS = [0, 5, 6, 9, 24] if tier == "quick" else [0, 1, 4, 5, 6, 7, 8, 9, 13, 15, 16, 24]
     yield Unit("registration", registration)
     for c in CONSUMERS[1:]:
         yield Unit(f"segment.{c[5:-15]}", consumer_segment(c), max_paths=50000)
@@ -370,4 +375,5 @@ def units(tier):
     yield Unit("unhandled.two-segments", unhandled_segments)
     yield Unit("slow-callback", slow_callback)
     yield Unit("misaddressed", misaddressed, max_paths=50000)
-    yield Unit("head-age", head_age)
+    RUN_STEPS[0] = 6 if tier == "quick" else 9
+    yield Unit("head-age", head_age, max_paths=100000)
